@@ -587,3 +587,8 @@ def check(run, prog, tier):
     import divrule
     divrule.check(run, prog, "C01-m", lambda p: ("/src/" in p or "/lib/efuns/" in p or "/lib/lpc/" in p or "/lib/socket/" in p) and not any(p.endswith(u) for u in (
         "lib/lpc/lex.c", "lib/lpc/preprocess.c", "lib/lpc/compiler.c", "lib/lpc/grammar.c", "lib/lpc/grammar.y", "lib/lpc/program/parse_trees.c", "lib/lpc/program/icode.c", "lib/lpc/program/generate.c")), minimum=4)
+
+    # ---- C01-n last-element accesses need a non-empty object
+    run.rule("C01-n", "every subscript whose index has the form `V - 1` (V a variable, a member such as ->size, or strlen(..)) is reached only with V known to be positive (dominating test, or a single assignment from an expression that is at least 1): on an empty string or array the access lands in front of the object", 10)
+    import rules.C01n as c01n
+    c01n.check(run, prog)
